@@ -29,6 +29,8 @@ CCAdd3Remove2 == {CCVal(AddNodeOp, 3), CCVal(RemoveOp, 2)}
 Join3V == (3 :> "V")
 Join3N == (3 :> "N")
 CCAddNV3 == {CCVal(AddNonVotingOp, 3), CCVal(AddNodeOp, 3)}
+CCAddW3 == {CCVal(AddWitnessOp, 3)}
+Join3W == (3 :> "W")
 
 \* Ready, then apply everything that was handed out (used by Eager and to settle the bootstrap)
 RECURSIVE ApplyAll(_, _)
